@@ -1001,7 +1001,10 @@ type engGen struct {
 // c14BigText bounds the padding of an occasional large accepted text (x 22 bytes; the protocol line carries it in hex)
 const c14BigText = 12000
 
-var funnyTexts = []string{"100% sure %s", "%", "%%", "%!", "%d%v%+v", "% x", "%[1]d", "%*d", "é€😀", "tab\there", "semi;colon", "a b", ""}
+var funnyTexts = []string{"100% sure %s", "%", "%%", "%!", "%d%v%+v", "% x", "%[1]d", "%*d", "é€😀", "tab\there", "semi;colon", "a b", "",
+	// texts that LOOK like JSON escapes (a literal backslash followed by u003c …), markup, quotes and backslashes: whatever the
+	// engine echoes into a JSON document must stay valid JSON and read back verbatim
+	`\u003cGully\u003e`, `a\u0026b`, `back\slash\\twice`, `<b>&amp;</b>`, `quote"in`, `\"`, `\u00`}
 
 func (g *engGen) text(pct bool) string {
 	for {
@@ -1223,7 +1226,7 @@ func (g *engGen) solutionsReq(h *seqRun) rawReq {
 func varNames2() []string { return varNames }
 
 var attrNames = []string{"Note", "Owner", "Note", "Summary", "encoding", "ParetoFrontMember", "ValidAgainstScenario", "ValidationErrors", "", "Priority", "Δ"}
-var attrValues = []string{`1`, `"x"`, `null`, `true`, `false`, `[1,2]`, `{"a":1,"b":[true]}`, `1.5`, `"é€😀"`, `"<tag> & more"`, `""`, `-0`, `1e3`, `"multi\nline"`}
+var attrValues = []string{`1`, `"x"`, `null`, `true`, `false`, `[1,2]`, `{"a":1,"b":[true]}`, `1.5`, `"é€😀"`, `"<tag> & more"`, `""`, `-0`, `1e3`, `"multi\nline"`, `"\\u003cx\\u003e"`, `"a\\u0026b \\ c"`, `["\\u003e"]`}
 
 func (g *engGen) patchReq(h *seqRun) rawReq {
 	r := g.r
